@@ -68,6 +68,45 @@ def tolist : Nat → PT → Nat → Option (List Ext)
       | none => none
       | some ts => (ts.mapM (fun s => tolist fuel s (next + t.paxes.length + 1))).map List.flatten
 
+/-! ### operations along one dimension: `log_softmax(dim)` -/
+
+/-- apply `f` to every fibre of the tensor along dimension `dim`, the way `log_softmax` does: make the dimension dense
+(`dim_to_dense`), apply `f` along the physical axis that carries it, and give the unbacked cells the value `f` gives to a
+constant fibre of defaults.  `f` is a parameter (for `log_softmax` it is not a rational function); `none` = IndexError. -/
+def alongDense (f : List Ext → List Ext) (t : PT) (dim next : Nat) : Option PT :=
+  match dimToDense t dim next with
+  | none => none
+  | some d =>
+    match d.vaxes[dim]? with
+    | none => none
+    | some (.phys v n) =>
+      let i := d.paxes.findIdx (·.1 == v)
+      let sizes := d.paxes.map (·.2)
+      let physical := (Ax.assigns sizes).map (fun idx =>
+        let fibre := (List.range n).map (fun j => d.physical[Ax.flat sizes (idx.set i j)]?.getD d.default)
+        (f fibre)[idx[i]?.getD 0]?.getD d.default)
+      some { d with physical := physical, default := (f (List.replicate n d.default))[0]?.getD d.default }
+    | some e =>
+      if isUnit e then
+        some { d with physical := d.physical.map (fun x => (f [x])[0]?.getD x), default := (f [d.default])[0]?.getD d.default }
+      else none
+
+/-- `log_softmax` of a vector, in floating point (for the correspondence only: the theorem is about an arbitrary `f`) -/
+def extToFloat : Ext → Float
+  | .nan => 0.0 / 0.0
+  | .ninf => -(1.0 / 0.0)
+  | .pinf => 1.0 / 0.0
+  | .fin q => Float.ofInt q.num / Float.ofNat q.den
+
+def logSoftmaxF (xs : List Float) : List Float :=
+  let m := xs.foldl (fun a b => if b > a then b else a) (-(1.0 / 0.0))
+  if m == 1.0 / 0.0 || m == -(1.0 / 0.0) || xs.any (fun x => x != x) then
+    -- torch: an infinite maximum or a NaN makes the whole fibre NaN (inf - inf)
+    xs.map (fun _ => 0.0 / 0.0)
+  else
+    let z := Float.log ((xs.map (fun x => Float.exp (x - m))).foldl (· + ·) 0.0)
+    xs.map (fun x => x - m - z)
+
 /-! ### protocol -/
 
 def handle : List String → Option (Except String String)
@@ -79,6 +118,28 @@ def handle : List String → Option (Except String String)
       match iter t next with
       | none => pure "raises"
       | some ts => pure ("ok " ++ showList (fun r => Bn.showPT r ++ " " ++ showBool r.wf) ts)
+  | "C06.logSoftmaxPattern" :: rest => some do
+      -- the PATTERN of log_softmax(dim) (physical axes, virtual axes) and, cell by cell, the fibre the value is computed from:
+      -- `f` = identity-with-a-tag is enough to compare patterns; the values are compared by the harness through `logSoftmaxF`
+      let (t, d, next) ← Tok.run (do let t ← parsePT; let d ← Tok.nat; let n ← Tok.nat; pure (t, d, n)) rest
+      match alongDense id t d next with
+      | none => pure "raises"
+      | some r =>
+        -- recompute the values in floating point from the fibres of the dense-at-dim tensor
+        match dimToDense t d next with
+        | none => pure "raises"
+        | some dd =>
+          let vals : List Float := match dd.vaxes[d]? with
+            | some (.phys v n) =>
+              let i := dd.paxes.findIdx (·.1 == v)
+              let sizes := dd.paxes.map (·.2)
+              (Ax.assigns sizes).map (fun idx =>
+                let fibre := (List.range n).map (fun j => extToFloat (dd.physical[Ax.flat sizes (idx.set i j)]?.getD dd.default))
+                (logSoftmaxF fibre)[idx[i]?.getD 0]?.getD 0.0)
+            | _ => dd.physical.map (fun x => (logSoftmaxF [extToFloat x])[0]?.getD 0.0)
+          let n := match dd.vaxes[d]? with | some (.phys _ n) => n | _ => 1
+          let dflt := (logSoftmaxF (List.replicate n (extToFloat dd.default)))[0]?.getD 0.0
+          pure s!"ok {showList (fun (x : Float) => toString x.toBits) vals} {showList (fun (p : Nat × Nat) => s!"{p.1} {p.2}") r.paxes} {showList showAxis r.vaxes} {dflt.toBits} {showBool ({ r with physical := dd.physical }).wf}"
   | "C06.tolist" :: rest => some do
       let (t, next) ← Tok.run (do let t ← parsePT; let n ← Tok.nat; pure (t, n)) rest
       match tolist 16 t next with
